@@ -306,7 +306,8 @@ func (m *errorMessage) write(w *typed.WriteBuffer) error {
 
 func (m errorMessage) AsSystemError() error {
 	// TODO(mmihic): Might be nice to return one of the well defined error types
-	return NewSystemError(m.errCode, m.message)
+	// The message comes from the peer: it must not be interpreted as a format string.
+	return SystemError{code: m.errCode, msg: m.message}
 }
 
 // Error returns the error message from the converted
@@ -338,7 +339,8 @@ func (m *cancelMessage) write(w *typed.WriteBuffer) error {
 }
 
 func (m *cancelMessage) AsSystemError() error {
-	return NewSystemError(ErrCodeCancelled, m.message)
+	// The message comes from the peer: it must not be interpreted as a format string.
+	return SystemError{code: ErrCodeCancelled, msg: m.message}
 }
 
 type pingReq struct {
